@@ -699,18 +699,25 @@ class World:
 
 
 class FormatHandler(logging.Handler):
-    """Formats every record (as any real handler would) and drops it."""
+    """Formats every record (as any real handler would) and drops it. A record that cannot be formatted is treated as every standard
+    handler treats it: logging.Handler.handleError prints '--- Logging error ---' and a traceback on stderr and goes on (that output is
+    captured and judged by the control checks; the sim checks have no clause about stderr and stay silent)."""
+
+    def __init__(self, report: bool = False) -> None:
+        super().__init__()
+        self.report = report
 
     def emit(self, record: logging.LogRecord) -> None:
         try:
             record.getMessage()
         except Exception:
-            pass        # logging itself reports such errors on stderr and goes on; not this harness's subject
+            if self.report:
+                self.handleError(record)
 
 
-def debug_logging() -> None:
+def debug_logging(report: bool = False) -> None:
     log = logging.getLogger("asyncio_taskpool")
-    log.handlers[:] = [FormatHandler()]
+    log.handlers[:] = [FormatHandler(report)]
     log.propagate = False
     log.setLevel(logging.DEBUG)
     for name in list(logging.root.manager.loggerDict):
